@@ -1126,6 +1126,14 @@ func (s *sim) restart(j int) error {
 		return nil
 	}
 	n.alive = true
+	// the restarted engine remembers only what its logs hold: the network may deliver everything again
+	s.mu.Lock()
+	for k := range s.deliv {
+		if k[1] == j {
+			delete(s.deliv, k)
+		}
+	}
+	s.mu.Unlock()
 	return s.settle()
 }
 
